@@ -355,6 +355,15 @@ def _params_battery():
                     bad.append(f"{how} of a metamodel ({name}) that never declared 'strict' accepted it")
                 except TextXError:
                     pass
+        # a string load that names a file goes through the file route: parameters are checked all the same
+        try:
+            mm_a.model_from_str("a x", file_name=os.path.join(d, "named.a"), other=1)
+            bad.append("an undeclared parameter was accepted by model_from_str(file_name=...)")
+        except TextXError:
+            pass
+        mn = mm_a.model_from_str("a x", file_name=os.path.join(d, "named2.a"), strict=3)
+        if dict(mn._tx_model_params) != {"strict": 3}:
+            bad.append(f"model_from_str(file_name=...) did not forward the parameter: {dict(mn._tx_model_params)}")
         fa = os.path.join(d, "model.a")
         open(fa, "w").write("a x y")
         mf = mm_a.model_from_file(fa, strict=5)
